@@ -2462,6 +2462,14 @@ static int yaml_import(vnaproperty_yaml_t *vymlp,
 		}
 		if ((subtree = vnaproperty_set_subtree(rootptr, "%s",
 			    (const char *)key->data.scalar.value)) == NULL) {
+		    if (errno == EINVAL) {
+			/* a fault of the text, not of the system */
+			_vnaproperty_yaml_error(vymlp, VNAERR_SYNTAX,
+				"%s (line %ld) error: invalid property key",
+				vymlp->vyml_filename,
+				key->start_mark.line + 1);
+			goto out;
+		    }
 		    _vnaproperty_yaml_error(vymlp, VNAERR_SYSTEM,
 			    "_vnaproperty_set_subtree: %s: %s",
 			    vymlp->vyml_filename, strerror(errno));
